@@ -80,13 +80,13 @@ func H08_dict() {
 	segI, _, err := z.newWithChunkMode(batch, DefaultChunkMode)
 	vAssert(err == nil, "build")
 	var seg segment.Segment = segI
-	prov := vChoice("prov", vParam("provs", 4)) // built, opened, merged once, merged twice
+	prov := vChoice("prov", vParam("provs", 5)) // built, opened, merged once, merged twice
 	if prov == 1 {
 		vAssert(segI.(*SegmentBase).Persist(vP("d.zap")) == nil, "persist")
 		seg, err = z.Open(vP("d.zap"))
 		vAssert(err == nil, "open")
 	}
-	if prov >= 2 {
+	if prov == 2 || prov == 3 {
 		_, _, err := z.Merge([]segment.Segment{segI}, []*roaring.Bitmap{nil}, vP("m1.zap"), nil, nil)
 		vAssert(err == nil, "merge1")
 		seg, err = z.Open(vP("m1.zap"))
@@ -97,6 +97,19 @@ func H08_dict() {
 			seg, err = z.Open(vP("m2.zap"))
 			vAssert(err == nil, "open2")
 		}
+	}
+	if prov == 4 {
+		// merged behind another segment that lacks the field and has a deleted document
+		o0 := &vDoc{id: "o0", fields: []index.Field{vIDField("o0"), vTextField("other", 1, []vTerm{{term: "k", freq: 1}}, index.IndexField, nil, nil, 't')}}
+		o1 := &vDoc{id: "o1", fields: []index.Field{vIDField("o1"), vTextField("other", 1, []vTerm{{term: "k", freq: 1}}, index.IndexField, nil, nil, 't')}}
+		oseg, _, err := z.newWithChunkMode([]index.Document{o0, o1}, DefaultChunkMode)
+		vAssert(err == nil, "other-build")
+		drop := roaring.New()
+		drop.Add(uint32(vChoice("otherDrop", 2)))
+		_, _, err = z.Merge([]segment.Segment{oseg, segI}, []*roaring.Bitmap{drop, nil}, vP("m4.zap"), nil, nil)
+		vAssert(err == nil, "merge4")
+		seg, err = z.Open(vP("m4.zap"))
+		vAssert(err == nil, "open4")
 	}
 	if vSkipKnown("C08-count-after-single-hit") && prov >= 2 {
 		// recorded finding: a general entry enumerated after a single-hit entry reports count 1
